@@ -473,8 +473,22 @@ class G:
         if c == 9:
             self.feat("unpacking")
             a, b = self.fresh(), self.fresh()
-            form = self.irange(0, 4)
-            if form == 0:
+            form = self.irange(0, 7)
+            if form >= 5:
+                c3 = self.fresh()
+                src = self.pick([self.expr("L", 1), self.expr("T", 1), "ID_(%s)" % self.expr("L", 1), self.expr("s", 1),
+                                 "(z for z in %s)" % self.expr("L", 2)])
+                if form == 5:
+                    s = "%s, *%s, %s = %s" % (a, b, c3, src)
+                    sc[a], sc[b], sc[c3] = "i", "L", "i"
+                elif form == 6:
+                    s = "*%s, %s, %s = %s" % (a, b, c3, src)
+                    sc[a], sc[b], sc[c3] = "L", "i", "i"
+                else:
+                    s = "%s, %s, *%s = %s" % (a, b, c3, src)
+                    sc[a], sc[b], sc[c3] = "i", "i", "L"
+                self.feat("starunpack")
+            elif form == 0:
                 s = "%s, %s = %s, %s" % (a, b, self.expr("i", 1), self.expr("i", 1))
                 sc[a] = sc[b] = "i"
             elif form == 1:
